@@ -86,6 +86,56 @@ theorem step_refines (P : Policy) (tbl : Table) (ht : IdiomsSafe tbl) (s : HStat
     rw [produce_fresh _ _ _ _ _ _ _ _ _ (safe_new ht site)]
     exact push_fresh s hw k res _ _
 
+/-- SEALING, literally: under a safe table a step never writes a cell of an existing backing array — the heap after
+    the step is the heap before it plus (at most one) newly allocated array -/
+theorem step_sealed (P : Policy) (tbl : Table) (ht : IdiomsSafe tbl) (s : HState) (op : Op) :
+    ∃ cs, (stepHeap P tbl s op).heap = s.heap ++ cs := by
+  unfold stepHeap
+  cases hop : opSem s.look op with
+  | mark m => exact ⟨[], by simp [HState.push]⟩
+  | alloc site k cap res => exact ⟨_, rfl⟩
+  | same site k r =>
+    simp only
+    cases hs : s.slice? r with
+    | none => exact ⟨[], by simp [HState.push]⟩
+    | some p =>
+      obtain ⟨k', recv⟩ := p
+      simp only
+      rcases safe_same ht site with hc | hc | hc
+      · rw [produce_fresh _ _ _ _ _ _ _ _ _ hc]; exact ⟨_, rfl⟩
+      · rw [produce_recv _ _ _ _ _ _ _ _ _ hc]; exact ⟨[], by simp [HState.push]⟩
+      · rw [produce_reslice _ _ _ _ _ _ _ _ _ hc]; exact ⟨[], by simp [HState.push]⟩
+  | window site k r lo hi =>
+    simp only
+    cases hs : s.slice? r with
+    | none => exact ⟨[], by simp [HState.push]⟩
+    | some p =>
+      obtain ⟨k', recv⟩ := p
+      simp only
+      cases hok : winOK (s.heap.read recv).length lo hi with
+      | false => exact ⟨[], by simp [HState.push]⟩
+      | true =>
+        simp only [if_true]
+        rcases safe_win ht site with hc | hc
+        · rw [produce_fresh _ _ _ _ _ _ _ _ _ hc]; exact ⟨_, rfl⟩
+        · rw [produce_reslice _ _ _ _ _ _ _ _ _ hc]; exact ⟨[], by simp [HState.push]⟩
+  | new site k r res kill =>
+    simp only
+    rw [safe_noWrite ht site.method]
+    simp only [Bool.false_eq_true, if_false]
+    rw [produce_fresh _ _ _ _ _ _ _ _ _ (safe_new ht site)]
+    exact ⟨_, rfl⟩
+
+theorem foldl_sealed (P : Policy) (tbl : Table) (ht : IdiomsSafe tbl) (ops : List Op) :
+    ∀ s : HState, ∃ cs, (ops.foldl (stepHeap P tbl) s).heap = s.heap ++ cs := by
+  induction ops with
+  | nil => intro s; exact ⟨[], by simp⟩
+  | cons op ops ih =>
+    intro s
+    obtain ⟨c1, h1⟩ := step_sealed P tbl ht s op
+    obtain ⟨c2, h2⟩ := ih (stepHeap P tbl s op)
+    exact ⟨c1 ++ c2, by simp only [List.foldl_cons]; rw [h2, h1, List.append_assoc]⟩
+
 theorem foldl_refines (P : Policy) (tbl : Table) (ht : IdiomsSafe tbl) (ops : List Op) :
     ∀ s : HState, s.WF → (ops.foldl (stepHeap P tbl) s).abs = ops.foldl stepPure s.abs ∧ (ops.foldl (stepHeap P tbl) s).WF := by
   induction ops with
